@@ -283,8 +283,8 @@ def selection_case(spec, keys):
     # routing of the fitted model on its own baseline, after other models with other maps were constructed in the process
     import opendsm.eemeter as em
     em.DailyModel()
-    em.DailyModel(settings={"weekday_weekend": {"friday": "weekend", "sunday": "weekday"}, "season": {"april": "winter"}})
     em.BillingModel()
+    em.DailyModel(settings={"weekday_weekend": {"monday": "weekend", "sunday": "weekday"}, "season": {"april": "winter"}})     # constructed LAST: a map no profile under test uses
     I.reach("selection.other_models_constructed_before_routing")
     p = m.predict(data, ignore_disqualification=True)
     st = m.settings
